@@ -438,6 +438,63 @@ def _tierwise_cases(quick):
                 yield (tiers, 0.1, 1.1, op)
 
 
+def _iter_tg(kinds):
+    tg = Textgrid(0.0, 4.0)
+    for i, k in enumerate(kinds):
+        nm = "t%d" % i
+        tg.addTier(IT(nm, [(0.0, 1.0, nm), (2.0, 3.0, "b")], 0.0, 4.0) if k == "I" else PT(nm, [(1.0, nm), (3.0, "q")], 0.0, 4.0))
+    return tg
+
+
+LOOP_BODIES = ("rename-every-tier", "remove-point-tiers", "remove-every-tier", "replace-by-cropped-self", "add-a-companion", "rename-and-move-to-front")
+
+
+def _loop_body(tg, t, body):
+    if body == "rename-every-tier":
+        tg.renameTier(t.name, t.name + "_v2")
+    elif body == "remove-point-tiers":
+        if t.tierType == constants.POINT_TIER:
+            tg.removeTier(t.name)
+    elif body == "remove-every-tier":
+        tg.removeTier(t.name)
+    elif body == "replace-by-cropped-self":
+        tg.replaceTier(t.name, t.crop(0.0, 4.0, "truncated", False), "silence")
+    elif body == "add-a-companion":
+        tg.addTier(t.new(t.name + "_copy"), None, "silence")
+    elif body == "rename-and-move-to-front":
+        tg.removeTier(t.name)
+        tg.addTier(t.new(t.name + "_f"), 0, "silence")
+
+
+def _check_edit_while_iterating(case):
+    """a sequence of tier-map edits issued from inside `for tier in textgrid:` (or over textgrid.tiers / tierNames): iteration runs over the tiers
+    the textgrid held when the loop started, every edit of the sequence is carried out, and the result is that of the same sequence of edits
+    issued one after the other"""
+    kinds, body, how = case
+    ref = _iter_tg(kinds)
+    for t in tuple(ref.tiers):      # the same edits, one after the other, on a twin textgrid
+        _loop_body(ref, t, body)
+    tg = _iter_tg(kinds)
+
+    def loop():
+        if how == "iter":
+            for t in tg:
+                _loop_body(tg, t, body)
+        elif how == "tiers":
+            for t in tg.tiers:
+                _loop_body(tg, t, body)
+        else:
+            for nm in tg.tierNames:
+                _loop_body(tg, tg.getTier(nm), body)
+    st, r, _ = call(loop)
+    tag = f"textgrid with tiers {kinds}: `{body}` for every tier, issued inside a loop over {'the textgrid' if how == 'iter' else 'textgrid.' + ('tiers' if how == 'tiers' else 'tierNames')}"
+    if st == "exc":
+        return 1, "X", None, [Viol("edit-while-iterating-raised:" + type(r).__name__, f"{tag} raised {r!r} after reaching {tuple(tg.tierNames)}")]
+    if snap_tg(tg) != snap_tg(ref):
+        return 1, "!", None, [Viol("edit-while-iterating-differs", f"{tag}: {snap_tg(tg)[:3]}, the same edits one after the other give {snap_tg(ref)[:3]}")]
+    return len(kinds), "ok", (kinds, body, how), []
+
+
 def parts(tier):
     quick = tier == "quick"
     maxtiers, nslots = (3, 5) if quick else (4, 6)
@@ -475,4 +532,10 @@ def parts(tier):
                   bounds={"tiers": 3}),
     ]
     ps += [p for p in c10.parts(tier) if p.name == "mergeTiers"]
+    ps.append(InputPart("edits-issued-while-iterating",
+                        lambda: ((k, b, h) for n in (1, 2, 3, 4) for k in itertools.product("IP", repeat=n) for b in LOOP_BODIES for h in ("iter", "tiers", "names")),
+                        _check_edit_while_iterating,
+                        rule="textgrids of 1-4 interval / point tiers x %d loop bodies (rename / remove / replace / add / move per tier) x the loop written over "
+                             "the textgrid itself, over .tiers and over .tierNames: every edit is carried out and the final names, order, spans and tiers are "
+                             "those of the same edits issued one after the other" % len(LOOP_BODIES), bounds={"tiers": 4}))
     return ps
